@@ -355,8 +355,60 @@ def wide_sampled_case(ctx, rng):
     return True
 
 
+def near_certain_case(ctx, rng):
+    """outcomes that are almost - not exactly - certain or impossible (float rotation angles a few 1e-3 away from a
+    multiple of 2 pi): the branch must still be projected and renormalised, its probability recorded as it is;
+    reference: the independent numpy state-vector runner (the exact model only holds angles from its own lattice)"""
+    from tangelo.linq import Circuit, Gate, get_backend
+    n = rng.randint(1, 3)
+    q = rng.randrange(n)
+    theta = rng.choice([0, 2 * math.pi, -2 * math.pi, 4 * math.pi]) + rng.choice([-1, 1]) * rng.choice([2e-3, 4e-3, 6e-3, 9e-3, 3e-2])
+    gl = [Gate("RY", q, parameter=theta)]
+    if n > 1:
+        gl += [Gate("CNOT", (q + 1) % n, control=q)] if rng.random() < 0.5 else [Gate("H", (q + 1) % n)]
+    style = rng.choice(["MEASURE", "CMEASURE"])
+    if style == "MEASURE":
+        gl.append(Gate("MEASURE", q))
+        circ = Circuit(gl + [Gate("H", q)], n_qubits=n)
+    else:
+        circ = Circuit(gl + [Gate("CMEASURE", q, parameter={"0": [], "1": [Gate("X", q)]})], n_qubits=n)
+    case = {"kind": "near_certain", "n": n, "q": q, "theta": theta, "style": style}
+    ctx.case(case, nontrivial=True, sample=False)
+    ctx.count("near_certain:" + style)
+    sim = get_backend("cirq")
+    total = 0.0
+    for want in ("0", "1"):
+        # reference: project by hand
+        ref_gates = [g for g in gl if g.name not in ("MEASURE", "CMEASURE")]
+        psi, _ = vlib.np_run_state(ref_gates, n)
+        idx = np.arange(2 ** n)
+        keep = ((idx >> q) & 1) == int(want)
+        p_ref = float(np.sum(np.abs(psi[keep]) ** 2))
+        phi = np.where(keep, psi, 0) / math.sqrt(p_ref)
+        tail = [Gate("H", q)] if style == "MEASURE" else ([Gate("X", q)] if want == "1" else [])
+        phi, _ = vlib.np_run_state(tail, n, psi0=phi)
+        freqs, sv = sim.simulate(circ, desired_meas_result=want, return_statevector=True)
+        p_code = circ.success_probabilities.get(want)
+        got = lsq_to_model(np.array(sv).astype(complex).ravel(), n)
+        total += p_code or 0
+        if p_code is None or abs(p_code - p_ref) > 1e-10:
+            ctx.violation(f"outcome {want!r} of a measurement after RY({theta}) has probability {p_ref!r}, recorded {p_code!r}", case)
+            return False
+        if not np.allclose(got, phi, atol=1e-9):
+            ctx.violation(f"post-measurement state of the almost certain / almost impossible outcome {want!r} (probability {p_ref:.3g}) is not the "
+                          f"normalised projection (max deviation {np.abs(got - phi).max():.3g})", case)
+            return False
+    if abs(total - 1) > 1e-10:
+        ctx.violation(f"branch probabilities of one measurement sum to {total!r}", case)
+        return False
+    return True
+
+
 def run(ctx):
     rng = ctx.rng
+    for i in range(ctx.n(20, 300)):
+        if not near_certain_case(ctx, rng):
+            return
     for i in range(ctx.n(25, 400)):
         if not wide_sampled_case(ctx, rng):
             return
